@@ -39,6 +39,10 @@ Fixpoint allclose (atol rtol : K) (R C : list (vec3 K)) : bool :=
   | _, _ => false
   end.
 
+(** X *= np.sqrt(w[:, None]) with sw = np.sqrt(w) *)
+Fixpoint scale_rows (sw : list K) (X : list (vec3 K)) : list (vec3 K) :=
+  match sw, X with s :: sr, v :: vr => vscale s v :: scale_rows sr vr | _, _ => [] end.
+
 Record kabsch_out := { k_ssd : K;          (* sum of squared residuals: rmsd = sqrt(ssd / N) * bohr2angstroms *)
                        k_rot : mat3 K;     (* RR *)
                        k_shift : vec3 K }. (* TT *)
